@@ -7,6 +7,7 @@ def run(ctx):
     ctx.rule = ("events of recorded executions of two real endpoints judged by TLC against Trace_Conn; distinct = recv + build events; "
                 "non-trivial = every recv/build event (each is checked against the full clause set)")
     CM.c07_models(ctx)
+    J.schedule_sweep(ctx, "C07", ctx.quick)
     J.run_scenarios(ctx, "C07", scenarios(ctx))
 
 
@@ -18,5 +19,5 @@ def scenarios(ctx):
         dict(name="callbacks-short-timeout", n=4 if q else 30, nticks=1000 if q else 3000, heal_after=600 if q else 2400,
              policy=dict(p_cb=1.0, p_loss=0.25, maxdelay=8, retries=(0, 0, -1, 1)), world=dict(start_seq="alt", timeout=0.25)),
         dict(name="callbacks-fragments", n=4 if q else 30, nticks=1000 if q else 3000, heal_after=600 if q else 2400,
-             policy=dict(p_cb=1.0, p_send=0.2, p_loss=0.12, maxdelay=12, lens=[1500, 2451, 3000, 5000, 100, 4], retries=(0, -1, 1)), world=dict(start_seq="alt")),
+             policy=dict(p_cb=1.0, p_send=0.2, p_loss=0.12, maxdelay=12, lens=[1500, 2451, 2453, 2455, 2457, 2458, 3000, 3479, 5000, 100, 4], retries=(0, -1, 1)), world=dict(start_seq="alt")),
     ]
